@@ -23,6 +23,7 @@ package rulepath
 
 import (
 	"fmt"
+	"github.com/free5gc/go-gtp5gnl"
 	"sort"
 	"sync"
 
@@ -258,6 +259,7 @@ func Run(c Case, assert map[string]bool) (v *vcore.Violation, stt Stats) {
 			op  string
 		}
 		seen := map[rq][]int{}
+		types := map[rq][]map[int]bool{} // attribute types of each request, per rule and operation
 		for _, q := range f.D.K.TakeLog() {
 			q := q
 			key, op := simkernel.Classify(&q)
@@ -265,6 +267,11 @@ func Run(c Case, assert map[string]bool) (v *vcore.Violation, stt Stats) {
 				continue
 			}
 			seen[rq{key, op}] = append(seen[rq{key, op}], q.Errno)
+			ts := map[int]bool{}
+			for _, a := range q.Attrs {
+				ts[a.Type] = true
+			}
+			types[rq{key, op}] = append(types[rq{key, op}], ts)
 		}
 		for oi, op := range ops {
 			stt.Ops++
@@ -282,7 +289,26 @@ func Run(c Case, assert map[string]bool) (v *vcore.Violation, stt Stats) {
 			}
 			if op.Verb == "create" && have[op.Kind][op.ID] {
 				stt.RefusedCreate = true
-				continue // refused by the data plane (EEXIST); what matters is that the installed rule can still be updated
+				// refused by the data plane (EEXIST); what matters is that the installed rule can still be updated - and that it
+				// has not been rewritten with part of the refused IE: a driver that answers the refusal by writing the rule again
+				// must write all of it (the create-only PDR_UNIX_SOCKET_PATH aside)
+				key := simkernel.RuleKey{Kind: op.Kind, SEID: up, ID: uint64(op.ID)}
+				updIE := false
+				for _, o2 := range ops {
+					if o2.Verb == "update" && o2.Kind == op.Kind && o2.ID == op.ID {
+						updIE = true
+					}
+				}
+				if cr := types[rq{key, "create"}]; !updIE && len(cr) > 0 {
+					for _, ut := range types[rq{key, "update"}] {
+						for a := range cr[0] {
+							if !ut[a] && !(op.Kind == "PDR" && a == gtp5gnl.PDR_UNIX_SOCKET_PATH) {
+								return vcore.Violatef("refused-create-rewrote-rule", "message %d %s: the Create %s %d for a rule that exists was refused by the data plane, and the installed rule was then written again without attribute %d of the IE: neither the installed rule nor the IE's content", mi, brief(ops), op.Kind, op.ID, a), stt
+							}
+						}
+					}
+				}
+				continue
 			}
 			got := seen[rq{simkernel.RuleKey{Kind: op.Kind, SEID: up, ID: uint64(op.ID)}, op.Verb}]
 			if len(got) == 0 {
